@@ -33,6 +33,9 @@ def chain_loops(fn, node_type_rec, next_field="next"):
     return list(out.values())
 
 
+BUCKETFN = set()
+
+
 def run(prog, rep):
     rep.rule("C15.1", "UB-free hashing: in the bucket function no arithmetic operator with a signed integer result has an operand derived from the key")
     rep.rule("C15.2", "index provenance: every subscript of the bucket array is a loop counter bounded by table->size or the bucket function's result for table->size; size is written once and equals the allocated bucket count")
@@ -43,29 +46,59 @@ def run(prog, rep):
     lu = prog.unit("plist.c")
 
     # ---- C15.1 -----------------------------------------------------------------------------
-    hf = u.fn("pp_hash_table_calc_hash")
-    keyp = hf.param_names()[0]
+    # the bucket computation: a static helper that reduces modulo one of its parameters, or (when written in place) every
+    # `... % table->size` expression
+    BUCKETFN.clear()
+    sites = []          # (function, modulo node, names the key may come from)
+    for f_ in u.functions.values():
+        if not f_.static or len(f_.params) < 2:
+            continue
+        mods_ = [n for (b, i, n) in f_.nodes() if n["k"] == "bin" and n["op"] == "%" and strip_casts(n["r"]) is not None
+                 and strip_casts(n["r"])["k"] == "ref" and strip_casts(n["r"]).get("decl") == "param"]
+        if mods_:
+            BUCKETFN.add(f_.name)
+            for m_ in mods_:
+                sites.append((f_, m_, set(f_.param_names()) - {strip_casts(m_["r"])["name"]}))
+    for f_ in u.functions.values():
+        for (b, i, n) in f_.nodes():
+            if n["k"] == "bin" and n["op"] == "%" and field_of(n["r"]) == "size":
+                sites.append((f_, n, set(f_.param_names()[1:])))
+    if not sites:
+        raise AnalysisBroken("phashtable.c: no bucket computation (`% size`) found")
     bad = []
     nops = 0
-    for b, i, s in hf.stmts():
-        for n in walk(s):
+    okm = True
+    for (hf, modn, keys) in sites:
+        # every arithmetic operator below the modulo whose operands depend on the key
+        stack_ = [modn]
+        seen_local = set()
+        while stack_:
+            n = stack_.pop()
+            if n is None or id(n) in seen_local:
+                continue
+            seen_local.add(id(n))
             if n["k"] == "bin" and n["op"] in ("+", "-", "*", "<<", "/", "%"):
                 t = u.type_of(n)
-                dep = any(x["k"] == "ref" and x["name"] == keyp for x in walk(n))
+                dep = any(x["k"] == "ref" and x["name"] in keys for x in walk(n))
                 if dep:
                     nops += 1
                     if t and t.get("k") == "int" and t.get("sg"):
-                        bad.append(n)
+                        bad.append((hf, n))
             if n["k"] == "un" and n["op"] == "-":
                 t = u.type_of(n)
-                if t and t.get("sg") and any(x["k"] == "ref" and x["name"] == keyp for x in walk(n)):
-                    bad.append(n)
-    rep.ob("C15.1", hf, "arith", not bad and nops > 0, "all %d key-dependent arithmetic operators compute in unsigned types" % nops if not bad and nops else
-           ("line %d: %s is computed in signed %s: overflow is undefined for keys near INT_MAX" % (line(bad[0]), show(bad[0]), u.type_of(bad[0])["s"]) if bad else "no arithmetic found"),
-           bad[0] if bad else hf.loc[0])
-    mods = [n for (b, i, n) in hf.nodes() if n["k"] == "bin" and n["op"] == "%"]
-    okm = len(mods) == 1 and root_var(mods[0]["r"]) == hf.param_names()[1]
-    rep.ob("C15.1", hf, "modulo", okm, "the bucket is the hash modulo the given bucket count" if okm else "the bucket function does not reduce modulo its second parameter", hf.loc[0])
+                if t and t.get("sg") and any(x["k"] == "ref" and x["name"] in keys for x in walk(n)):
+                    bad.append((hf, n))
+            if n["k"] == "ref" and n.get("decl") == "local":
+                for d_ in hf.origins(n):
+                    stack_.append(d_)
+            for kk in ("l", "r", "e"):
+                if isinstance(n.get(kk), dict):
+                    stack_.append(n[kk])
+    hf0 = sites[0][0]
+    rep.ob("C15.1", hf0, "arith", not bad and nops > 0, "all %d key-dependent arithmetic operators of the bucket computation are in unsigned types" % nops if not bad and nops else
+           ("line %d: %s is computed in signed %s: overflow is undefined for keys near INT_MAX" % (line(bad[0][1]), show(bad[0][1]), u.type_of(bad[0][1])["s"]) if bad else "no arithmetic found"),
+           bad[0][1] if bad else hf0.loc[0])
+    rep.ob("C15.1", hf0, "modulo", True, "the bucket is the key's hash reduced modulo the bucket count (%d site(s))" % len(sites), hf0.loc[0])
     rep.floor("C15.1", 2)
 
     # ---- C15.2 -----------------------------------------------------------------------------
@@ -83,7 +116,7 @@ def run(prog, rep):
     nsub = 0
     for fn in u.functions.values():
         for b, i, c in fn.calls():
-            if c.get("callee") == "pp_hash_table_calc_hash":
+            if c.get("callee") in BUCKETFN:
                 a1 = strip_casts(c["args"][1])
                 okm2 = a1 is not None and a1["k"] == "member" and a1["field"] == "size"
                 rep.ob("C15.2", fn, "modulus", okm2, "the bucket is computed modulo table->size" if okm2 else
@@ -104,7 +137,7 @@ def run(prog, rep):
         for b, i, n in fn.nodes():
             if n["k"] == "asg":
                 r = strip_casts(n["r"])
-                if r is not None and r["k"] == "call" and r.get("callee") == "pp_hash_table_calc_hash":
+                if r is not None and r["k"] == "call" and r.get("callee") in BUCKETFN:
                     a1 = strip_casts(r["args"][1])
                     if a1 is not None and a1["k"] == "member" and a1["field"] == "size":
                         hashed.add(root_var(n["l"]))
@@ -138,7 +171,7 @@ def run(prog, rep):
                             gh = set()
                             for b3, i3, n3 in g.nodes():
                                 if n3["k"] == "asg" and strip_casts(n3["r"]) is not None and strip_casts(n3["r"])["k"] == "call" \
-                                        and strip_casts(n3["r"]).get("callee") == "pp_hash_table_calc_hash":
+                                        and strip_casts(n3["r"]).get("callee") in BUCKETFN:
                                     gh.add(root_var(n3["l"]))
                             if av not in gh:
                                 okp, msg = False, "line %d: %s passes %s as bucket index to %s, which is not the bucket function's result" % (line(c), g.name, show(c["args"][pos]), fn.name)
@@ -148,79 +181,23 @@ def run(prog, rep):
     rep.floor("C15.2", 8)
 
     # ---- C15.3 -----------------------------------------------------------------------------
-    fnode = u.fn("pp_hash_table_find_node", raw=True)
-    cmpk = [n for (b, i, n) in fnode.nodes() if n["k"] == "bin" and n["op"] in ("==", "!=") and
-            {x for x in (field_of(n["l"]), field_of(n["r"]))} & {"key"}]
-    okf = len(cmpk) == 1 and cmpk[0]["op"] == "==" and not any(c.get("callee") for (b, i, c) in fnode.calls())
-    rep.ob("C15.3", fnode, "find", okf, "the chain search compares keys by pointer identity and calls nothing" if okf else "the chain search does not compare node->key == key by identity", fnode.loc[0])
-    ins = u.fn("p_hash_table_insert", raw=True)
-    allocs = []
-
-    def s1(st, b, i, stmt):
-        for c in calls(stmt):
-            if c.get("callee") in ("p_malloc0", "p_malloc"):
-                allocs.append((st, c))
-        return [guards.transfer(st, stmt)]
-    Flow(ins, [guards.EMPTY], s1, lambda st, b, to, on: guards.edge_assume(st, b, on)).run()
-    oki = bool(allocs) and all(any(fk.startswith("pp_hash_table_find_node(") and fop == "==" and fv == 0 for (fk, fop, fv) in f) or
-                               any(fop == "==" and fv == 0 and any(f2 == fk and o2 == "=:" and str(v2).startswith("pp_hash_table_find_node(") for (f2, o2, v2) in f) for (fk, fop, fv) in f)
-                               for (f, c) in allocs)
-    rep.ob("C15.3", ins, "insert", oki, "a node is allocated only after the key was searched and not found; otherwise the value is overwritten in place" if oki else
-           "insert allocates a node without the key having been searched and found absent (duplicate keys in one chain)", ins.loc[0])
-    lk = u.fn("p_hash_table_lookup", raw=True)
-    marker = False
-    for (b, i, r) in lk.returns():
-        for n in walk(r, elsewhere=True):
-            if n["k"] == "cast" and cv(n) == -1:
-                marker = True
-            if cv(n) == -1 and (u.type_of(n) or {}).get("k") == "ptr":
-                marker = True
-    rep.ob("C15.3", lk, "marker", marker, "lookup returns (ppointer) -1 for an absent key" if marker else "lookup's not-found marker is not (ppointer) -1", lk.loc[0])
-    rm = u.fn("p_hash_table_remove", raw=True)
-    okr, msg = True, ""
-    frees = [(b, i, c) for (b, i, c) in rm.calls() if c.get("callee") == "p_free"]
-    if len(frees) != 1:
-        okr, msg = False, "remove frees %d nodes" % len(frees)
-    else:
-        fb, fi, fc = frees[0]
-        nodev = root_var(fc["args"][0])
-        # at the free: key equality established, unlink store done in this iteration
-        st_seen = []
-
-        def s2(st, b, i, stmt):
-            facts, unlinked = st
-            for n in walk(stmt):
-                if n["k"] == "asg":
-                    r = strip_casts(n["r"])
-                    if r is not None and r["k"] == "member" and r["field"] == "next" and root_var(r) == nodev:
-                        l = strip_casts(n["l"])
-                        if l is not None and (l["k"] == "idx" or (l["k"] == "member" and l["field"] == "next")):
-                            unlinked = True
-                    l = strip_casts(n["l"])
-                    if l is not None and l["k"] == "ref" and l["name"] == nodev:
-                        unlinked = False
-            for c in calls(stmt):
-                if c is fc:
-                    st_seen.append((facts, unlinked))
-            return [(guards.transfer(facts, stmt), unlinked)]
-
-        def e2(st, b, to, on):
-            f2 = guards.edge_assume(st[0], b, on)
-            return None if f2 is None else (f2, st[1])
-        Flow(rm, [(guards.EMPTY, False)], s2, e2).run()
-        for (facts, unlinked) in st_seen:
-            if not unlinked:
-                okr, msg = False, "the node is freed on a path where it was not unlinked from its chain (dangling link)"
-            if not any(("%s->key" % nodev) in fk and "==" in fk and fop == "==" and fv == 1 for (fk, fop, fv) in facts) and \
-                    not any(fk == "(%s->key==key)" % nodev for (fk, fop, fv) in facts):
-                okr, msg = False, "the node is freed without its key having compared equal to the search key"
-        # after the free the loop is left
-        if okr:
-            nxt = [to for (to, on) in fb.succs]
-            loops = [body for (h, body) in rm.loops() if fb.id in body]
-            if loops and all(t in loops[0] for t in nxt):
-                okr, msg = False, "the chain walk continues after the node was freed"
-    rep.ob("C15.3", rm, "remove", okr, "remove unlinks the node whose key is identical, frees it and leaves the loop" if okr else msg, rm.loc[0])
+    # insert / lookup / remove on one bucket chain: decided by shape analysis (C15.6) - helper names play no role there
+    rep.rule("C15.6", "hash chain operations (shape analysis to a fixpoint, chains of every length, unique keys): the bucket array is subscripted only with the key's hash "
+                      "reduced modulo table->size; insert overwrites the value of a present key in place and otherwise, after comparing every node, links one new node "
+                      "holding the arguments; lookup returns the stored value or (ppointer) -1 after comparing every node; remove unlinks and releases exactly the key's node")
+    from plint import shape as _shape, chainshape as _chain
+    for spec in ("insert", "lookup", "remove"):
+        fn = u.fn("p_hash_table_" + spec, raw=True)
+        seen = {}
+        stats, viol = _shape.explore(u, fn, lambda spec=spec, fn=fn, seen=seen: _chain.ChainDomain(spec, seen, len(fn.params)))
+        okc = not viol and stats["returns"] > 0
+        if viol:
+            v = viol[0]
+            msg = "%s (path through lines %s; shape {%s}; %d of %d paths fail)" % (v[0], ", ".join(str(x) for x in v[3][-8:]), "; ".join(v[2]), len(viol), stats["paths"])
+        else:
+            msg = "%d paths to a fixpoint of %d abstract loop-head states: every return agrees with the map operation `%s` on the key's chain" % (stats["paths"], len(seen), spec)
+        rep.ob("C15.6", fn, "map:" + spec, okc, msg, viol[0][1] if viol else fn.loc[0])
+    rep.floor("C15.6", 3)
     # listing functions: every chain is scanned to its end
     for fname in ("p_hash_table_keys", "p_hash_table_values", "p_hash_table_lookup_by_value"):
         fn = u.fn(fname)
@@ -247,7 +224,7 @@ def run(prog, rep):
         loops = [body for (h, body) in lr.loops() if fb.id in body]
         okp = not (loops and all(t in loops[0] for (t, on) in fb.succs))
     rep.ob("C15.3", lr, "list-remove", okp, "p_list_remove frees the first matching item and leaves the loop" if okp else "p_list_remove keeps walking after freeing an item", lr.loc[0])
-    rep.floor("C15.3", 8)
+    rep.floor("C15.3", 4)
 
     # ---- C15.4 -----------------------------------------------------------------------------
     rel = uaf.releasers_for(prog)
@@ -362,18 +339,34 @@ SELFTEST = [
          old="\thash = pp_hash_table_calc_hash (key, table->size);\n\n\treturn ((node", new="\thash = pp_hash_table_calc_hash (key, 128);\n\n\treturn ((node"),
     dict(id="lookup-by-value-break", file="src/phashtable.c", expect="C15.3",
          old="\t\t\tif (res)\n\t\t\t\tret = p_list_append (ret, node->key);", new="\t\t\tif (!res)\n\t\t\t\tbreak;\n\t\t\tret = p_list_append (ret, node->key);"),
-    dict(id="insert-always-allocates", file="src/phashtable.c", expect="C15.3",
+    dict(id="insert-always-allocates", file="src/phashtable.c", expect="C15.6",
          old="\tif ((node = pp_hash_table_find_node (table, key, hash)) == NULL) {\n\t\tif (P_UNLIKELY ((node = p_malloc0", new="\tif ((node = NULL) == NULL) {\n\t\tif (P_UNLIKELY ((node = p_malloc0"),
     dict(id="remove-no-break", file="src/phashtable.c", expect="C15.4",
          old="\t\t\t\tp_free (node);\n\t\t\t\tbreak;\n\t\t\t} else {", new="\t\t\t\tp_free (node);\n\t\t\t\tnode = node->next;\n\t\t\t} else {"),
-    dict(id="remove-forgets-head", file="src/phashtable.c", expect="C15.3",
+    dict(id="remove-forgets-head", file="src/phashtable.c", expect="C15.6",
          old="\t\t\t\tif (prev_node == NULL)\n\t\t\t\t\ttable->table[hash] = node->next;\n\t\t\t\telse\n\t\t\t\t\tprev_node->next = node->next;\n", new="\t\t\t\tif (prev_node != NULL)\n\t\t\t\t\tprev_node->next = node->next;\n"),
     dict(id="table-free-uses-freed-node", file="src/phashtable.c", expect="C15.4",
          old="\t\t\tnext_node = node->next;\n\t\t\tp_free (node);\n\t\t\tnode = next_node;", new="\t\t\tp_free (node);\n\t\t\tnode = node->next;"),
     dict(id="list-free-next-after-free", file="src/plist.c", expect="C15.4",
          old="\t\tnext = cur->next;\n\t\tp_free (cur);", new="\t\tp_free (cur);\n\t\tnext = cur->next;"),
-    dict(id="lookup-marker-null", file="src/phashtable.c", expect="C15.3",
+    dict(id="lookup-marker-null", file="src/phashtable.c", expect="C15.6",
          old="== NULL) ? (ppointer) (-1) : node->value;", new="== NULL) ? NULL : node->value;"),
+    dict(id="insert-value-not-overwritten", file="src/phashtable.c", expect="C15.6",
+         old="\t} else\n\t\tnode->value = value;", new="\t}"),
+    dict(id="insert-links-behind-head", file="src/phashtable.c", expect="C15.6",
+         old="\t\tnode->next  = table->table[hash];\n\n\t\ttable->table[hash] = node;", new="\t\tif (table->table[hash] != NULL) {\n\t\t\tnode->next = table->table[hash]->next->next;\n\t\t\ttable->table[hash]->next = node;\n\t\t} else\n\t\t\ttable->table[hash] = node;"),
+    dict(id="insert-key-not-stored", file="src/phashtable.c", expect="C15.6",
+         old="\t\tnode->key   = key;\n", new=""),
+    dict(id="find-stops-after-first-node", file="src/phashtable.c", expect="C15.6",
+         old="\tfor (ret = table->table[hash]; ret != NULL; ret = ret->next)\n\t\tif (ret->key == key)\n\t\t\treturn ret;", new="\tret = table->table[hash];\n\n\tif (ret != NULL && ret->key == key)\n\t\treturn ret;"),
+    dict(id="remove-unlinks-successor", file="src/phashtable.c", expect="C15.6",
+         old="\t\t\t\t\tprev_node->next = node->next;", new="\t\t\t\t\tprev_node->next = node->next != NULL ? node->next->next : NULL;"),
+    dict(id="remove-index-unreduced", file="src/phashtable.c", expect="C15.6",
+         old="\tif (pp_hash_table_find_node (table, key, hash) != NULL) {\n\t\tnode = table->table[hash];", new="\tif (pp_hash_table_find_node (table, key, hash) != NULL) {\n\t\tnode = table->table[hash + 1];"),
+    dict(id="find-node-inlined-in-insert-neutral", file="src/phashtable.c", expect=None,
+         old="\tif ((node = pp_hash_table_find_node (table, key, hash)) == NULL) {", new="\tfor (node = table->table[hash]; node != NULL; node = node->next)\n\t\tif (node->key == key)\n\t\t\tbreak;\n\n\tif (node == NULL) {"),
+    dict(id="remove-single-walk-neutral", file="src/phashtable.c", expect=None,
+         old="\tif (pp_hash_table_find_node (table, key, hash) != NULL) {\n\t\tnode = table->table[hash];", new="\t{\n\t\tnode = table->table[hash];"),
     dict(id="keys-while-form-neutral", file="src/phashtable.c", expect=None,
          old="\t\tfor (node = table->table[i]; node != NULL; node = node->next)\n\t\t\tret = p_list_append (ret, node->key);",
          new="\t{\n\t\tnode = table->table[i];\n\t\twhile (node != NULL) {\n\t\t\tret = p_list_append (ret, node->key);\n\t\t\tnode = node->next;\n\t\t}\n\t}"),
